@@ -153,6 +153,8 @@ func checkC17(w *World, r *Report) {
 	r.Try(func() { ruleListOrderPreserved(w, r, "R17.10", la) })
 	r.Rule("R17.11", 5, "what is served is what was registered: instance registrations are answered with the descriptor's own instance, constructors with the descriptor's own function")
 	r.Try(func() { ruleFunctionIdentity(w, r, "R17.11") })
+	r.Rule("R17.12", 1, "what is registered is what is served: a descriptor's Constructor and Instance are the registered value, never the analysis record's (per-type, never invalidated by Remove)")
+	r.Try(func() { ruleDescriptorConstructorSource(w, r, "R17.12") })
 
 	// ---- R17.1
 	var writers []*FuncInfo
